@@ -486,3 +486,182 @@ func TestErrTextsAcceptedForms(t *testing.T) {
 		}
 	}
 }
+
+// ---- rules added for the third set of harmless refactorings (R33 … R48)
+
+func TestNormalizeRules3(t *testing.T) {
+	const mapT = `map[string]interface{}`
+	cases := []normCase{
+		// ---- guard merge
+		{"guard merge", `var g int
+func f(a, b bool) int { if a != b { return 0 }; if g > 0 { return 1 }; return 0 }`, `if a == b { if g > 0 { return 1 } } return 0`, `!=`},
+		{"guard merge: negated condition", `var g int
+func f(a bool) int { if !a { return 0 }; g++; if g > 0 { return 1 }; return 0 }`, `if a { g++ if g > 0 { return 1 } } return 0`, `!a`},
+		{"guard merge: another value returned kept", `var g int
+func f(a, b bool) int { if a != b { return 2 }; if g > 0 { return 1 }; return 0 }`, `if a != b { return 2 }`, ``},
+		{"guard merge: returned name redeclared in between kept", `var e = 3
+var g int
+func f(a, b bool) int { if a != b { return e }; e := 5; g = e; return e }`, `if a != b { return e }`, `a == b`},
+		{"guard merge: nil test kept", `var g int
+func f(p *int) int { if p != nil { return 0 }; g++; return 0 }`, `if p != nil { return 0 }`, `==`},
+		{"guard merge: positive guard kept", `var g int
+func f(a, b bool) int { if a == b { return 0 }; g++; return 0 }`, `if a == b { return 0 } g++`, `!=`},
+		{"guard merge: not in a nested block", `var g int
+func f(a, b bool) int { for { if a != b { return 0 }; g++; return 0 } }`, `if a != b { return 0 }`, `a == b`},
+		// ---- init sink
+		{"init sink", `type T struct{ w bool }
+var g int
+func f(t *T, x interface{}) { if _, isList := x.([]interface{}); t.w && isList { g = 1 } }`, `if t.w { if _, isList := x.([]interface{}); isList { g = 1 } }`, `&&`},
+		{"init sink: init with an effect kept", `type T struct{ w bool }
+var g int
+func h() (int, bool)
+func f(t *T) { if _, ok := h(); t.w && ok { g = 1 } }`, `if _, ok := h(); t.w { if ok { g = 1 } }`, ``},
+		{"init sink: assertion that may panic kept", `type T struct{ w bool }
+var g int
+func f(t *T, x interface{}) { if v := x.([]interface{}); t.w && len(v) > 0 { g = 1 } }`, `if v := x.([]interface{}); t.w {`, ``},
+		{"init sink: outer condition uses the result kept", `type T struct{ w bool }
+var g int
+func f(t *T, x interface{}) { if _, ok := x.([]interface{}); ok && t.w { g = 1 } }`, `if _, ok := x.([]interface{}); ok { if t.w {`, ``},
+		{"init sink: outer condition calls kept", `var g int
+func w() bool
+func f(x interface{}) { if _, ok := x.([]interface{}); w() && ok { g = 1 } }`, `if _, ok := x.([]interface{}); w() {`, ``},
+		// ---- assertion into the init clause
+		{"assert init (guard form)", `var g int
+var errX error
+func h(m ` + mapT + `) error
+func f(x interface{}) error { m, ok := x.(` + mapT + `); if !ok { g = 1; return errX }; return h(m) }`,
+			`if m, ok := x.(` + mapT + `); ok { return h(m) } g = 1 return errX`, `!ok`},
+		{"assert init (positive form)", `var g int
+var errX error
+func h(m ` + mapT + `) error
+func f(x interface{}) error { m, ok := x.(` + mapT + `); if ok { return h(m) }; g = 1; return errX }`,
+			`if m, ok := x.(` + mapT + `); ok { return h(m) } g = 1 return errX`, ``},
+		{"assert init: failure path uses the value kept", `var g int
+var errX error
+func h(m ` + mapT + `) error
+func f(x interface{}) error { m, ok := x.(` + mapT + `); if !ok { g = len(m); return errX }; return h(m) }`, `m, ok := x.(` + mapT + `) if !ok`, ``},
+		{"assert init: rest uses the value kept", `var g int
+var errX error
+func h(m ` + mapT + `) error
+func f(x interface{}) error { m, ok := x.(` + mapT + `); if ok { return h(m) }; g = len(m); return errX }`, `m, ok := x.(` + mapT + `) if ok`, ``},
+		{"assert init: guard that does not leave kept", `var g int
+func h(m ` + mapT + `) error
+func f(x interface{}) error { m, ok := x.(` + mapT + `); if !ok { g = 1 }; return h(m) }`, `m, ok := x.(` + mapT + `) if !ok { g = 1 }`, ``},
+		{"assert init: long success path kept (the library's guard form)", `var g int
+var errX error
+func h(m ` + mapT + `) error
+func f(x interface{}) error { m, ok := x.(` + mapT + `); if !ok { return errX }; g = len(m); return h(m) }`, `m, ok := x.(` + mapT + `) if !ok { return errX }`, ``},
+		{"assert init: ok is an existing variable kept", `var g bool
+func f(x interface{}) int { var ok bool; defer func() { g = ok }(); m, ok := x.(` + mapT + `); if ok { return len(m) }; return 0 }`, `m, ok := x.(` + mapT + `) if ok`, ``},
+		{"assert init: failure path declares a name used elsewhere kept", `var g int
+var errX error
+func h(m ` + mapT + `) error
+func f(x interface{}) error { { n := 2; g = n }; m, ok := x.(` + mapT + `); if !ok { n := 1; g = n; return errX }; return h(m) }`, `if !ok { n := 1`, ``},
+		// ---- chain of assertions -> type switch
+		{"assert chain", `var g int
+func hm(m ` + mapT + `) int
+func hl(l []interface{}) int
+func f(x interface{}) int { if m, ok := x.(` + mapT + `); ok { return hm(m) }; if l, ok := x.([]interface{}); ok { return hl(l) }; g = 1; return 0 }`,
+			`switch typedNodes := x.(type) { case ` + mapT + `: return hm(typedNodes) case []interface{}: return hl(typedNodes) default: g = 1 return 0 }`, `ok`},
+		{"assert chain: no value used", `var g int
+func f(x interface{}) int { if _, ok := x.(float64); ok { return 1 }; if _, ok := x.(string); ok { return 2 }; return 0 }`,
+			`switch x.(type) { case float64: return 1 case string: return 2 default: return 0 }`, `ok`},
+		{"assert chain: a single test stays an if", `func hm(m ` + mapT + `) int
+func f(x interface{}) int { if m, ok := x.(` + mapT + `); ok { return hm(m) }; return 0 }`, `if m, ok := x.(` + mapT + `); ok { return hm(m) }`, `switch`},
+		{"assert chain: two different variables kept", `func f(x, y interface{}) int { if _, ok := x.(string); ok { return 1 }; if _, ok := y.(bool); ok { return 2 }; return 0 }`, `if _, ok := y.(bool); ok`, `switch`},
+		{"assert chain: a body that falls through kept", `var g int
+func f(x interface{}) int { if _, ok := x.(string); ok { g = 1 }; if _, ok := x.(bool); ok { return 2 }; return g }`, `if _, ok := x.(bool); ok`, `switch`},
+		{"assert chain: break in a body kept", `var g int
+func f(xs []interface{}) int { for _, x := range xs { if s, ok := x.(string); ok { if len(s) == 0 { break }; return 1 }; if _, ok := x.(bool); ok { return 2 }; g++ }; return g }`, `if _, ok := x.(bool); ok`, `switch`},
+		{"assert chain: break in the tail kept", `var g int
+func f(xs []interface{}) int { for _, x := range xs { if _, ok := x.(string); ok { return 1 }; if _, ok := x.(bool); ok { return 2 }; if g > 3 { break }; g++ }; return g }`, `if _, ok := x.(bool); ok`, `switch`},
+		{"assert chain: binding name taken kept", `func f(x interface{}) int { typedNodes := 1; if s, ok := x.(string); ok { return len(s) }; if _, ok := x.(bool); ok { return 2 }; return typedNodes }`, `if s, ok := x.(string); ok`, `switch`},
+		{"assert chain: body uses ok kept", `var g bool
+func f(x interface{}) int { if s, ok := x.(string); ok { g = ok; return len(s) }; if _, ok := x.(bool); ok { return 2 }; return 0 }`, `if s, ok := x.(string); ok`, `switch`},
+		{"assert chain: operand is not a local kept", `var x interface{}
+func f() int { if _, ok := x.(string); ok { return 1 }; if _, ok := x.(bool); ok { return 2 }; return 0 }`, `if _, ok := x.(bool); ok`, `switch`},
+		{"assert chain: same type twice kept", `func f(x interface{}) int { if _, ok := x.(string); ok { return 1 }; if _, ok := x.(string); ok { return 2 }; return 0 }`, `if _, ok := x.(string); ok { return 2 }`, `switch`},
+		// ---- arithmetic local
+		{"arith local", `func f(st []int) int { s := 0; for len(st) > 0 { last := len(st) - 1; cur := st[last]; st = st[:last]; s += cur }; return s }`,
+			`cur := st[len(st)-1] st = st[:len(st)-1]`, `last`},
+		{"arith local: parenthesised inside an operator", `func f(a int) int { n := a - 1; return 2 * n }`, `return 2 * (a - 1)`, `n :=`},
+		{"arith local: use after the operand changed kept", `func f(st []int) int { last := len(st) - 1; st = st[:last]; return last + len(st) }`, `last := len(st) - 1`, ``},
+		{"arith local: operand addressed kept", `func h(p *[]int)
+func f(st []int) int { last := len(st) - 1; h(&st); return st[last] }`, `last := len(st) - 1`, ``},
+		{"arith local: operand captured kept", `func f(st []int) int { last := len(st) - 1; func() { st = nil }(); return last }`, `last := len(st) - 1`, ``},
+		{"arith local: use and store in a loop kept", `func f(st []int) int { s := 0; last := len(st) - 1; for i := 0; i < 2; i++ { s += last; st = st[:0] }; return s }`, `last := len(st) - 1`, ``},
+		{"arith local: use in a later statement of an if with a store kept", `func f(st []int, c bool) int { last := len(st) - 1; if c { st = nil; return last }; return 0 }`, `last := len(st) - 1`, ``},
+		{"arith local: division kept", `func f(a, b int) int { n := a / b; return n }`, `n := a / b`, ``},
+		{"arith local: len of a map kept", `func f(m map[int]int) int { n := len(m) - 1; m[1] = 1; return n }`, `n := len(m) - 1`, ``},
+		{"arith local: local reassigned kept", `func f(st []int) int { last := len(st) - 1; last++; return st[last] }`, `last := len(st) - 1`, ``},
+		{"arith local: constant kept", `func f(st []int) int { n := 2 - 1; return st[n] }`, `n := 2 - 1`, ``},
+		{"arith local: operand redeclared in an inner scope kept", `func f(st []int) int { last := len(st) - 1; { st := []int{1, 2, 3}; return st[last] } }`, `last := len(st) - 1`, ``},
+	}
+	for _, tc := range cases {
+		got := normTestRun(t, "x.go", "package p\n"+tc.src+"\n", normProfile{})
+		if tc.want != "" && !strings.Contains(got, tc.want) {
+			t.Errorf("%s: want %q in\n  %s", tc.name, tc.want, got)
+		}
+		if tc.not != "" && strings.Contains(got, tc.not) {
+			t.Errorf("%s: do not want %q in\n  %s", tc.name, tc.not, got)
+		}
+	}
+}
+
+func TestNormalizeShortIntDecl(t *testing.T) {
+	short := normProfile{keepIntShort: true, shortIntDecl: true}
+	src := "package p\nfunc f(n int) []int { var index int; result := make([]int, n); for i := 0; i < n; i++ { result[index] = i; index++ }; return result }\n"
+	if got := normTestRun(t, "x.go", src, short); !strings.Contains(got, "index := 0 result := make([]int, n)") || strings.Contains(got, "var index") {
+		t.Errorf("shortIntDecl: %s", got)
+	}
+	if got := normTestRun(t, "x.go", src, normProfile{}); !strings.Contains(got, "var index int") {
+		t.Errorf("shortIntDecl applied without the profile: %s", got)
+	}
+	// the short form itself is kept under the profile
+	if got := normTestRun(t, "x.go", "package p\nfunc f() int { x := 0; x++; return x }\n", short); !strings.Contains(got, "x := 0") {
+		t.Errorf("x := 0 not kept: %s", got)
+	}
+	// evil twins: another type, an initial value, two names, a shadowed `int`
+	for name, tc := range map[string][2]string{
+		"int64":        {"func f() int64 { var x int64; x++; return x }", "var x int64"},
+		"with a value": {"func f() int { var x int = 1; x++; return x }", "var x int = 1"},
+		"two names":    {"func f() int { var x, y int; x++; return x + y }", "var x, y int"},
+		"shadowed int": {"type int string\nfunc f() int { var x int; return x }", "var x int"},
+	} {
+		if got := normTestRun(t, "x.go", "package p\n"+tc[0]+"\n", short); !strings.Contains(got, tc[1]) {
+			t.Errorf("%s: the declaration must be kept: %s", name, got)
+		}
+	}
+}
+
+func TestNormalizeAggregateNames(t *testing.T) {
+	head := `type buf struct{ result []interface{} }
+type node interface{ retrieve(c *buf) error; vg() bool }
+type syntaxAggregateFunction struct{ param node }
+type otherFunction struct{ param node }
+func getContainer() *buf
+func putContainer(*buf)
+var out []interface{}
+`
+	body := `{ paramValues := getContainer(); defer func() { putContainer(paramValues) }(); if err := f.param.retrieve(paramValues); err != nil { return err }; collected := paramValues.result; if !f.param.vg() { if a, ok := paramValues.result[0].([]interface{}); ok { collected = a } }; EXTRA; out = collected; return nil }`
+	run := func(recv, extra string) string {
+		return normTestRun(t, "x.go", "package p\n"+head+"func (f *"+recv+") retrieve() error "+strings.Replace(body, "EXTRA", extra, 1)+"\n", normProfile{})
+	}
+	got := run("syntaxAggregateFunction", "_ = 0")
+	if !strings.Contains(got, "values := getContainer()") || !strings.Contains(got, "result := values.result") ||
+		!strings.Contains(got, "values.result[0].([]interface{}); ok { result = a }") || !strings.Contains(got, "out = result") ||
+		strings.Contains(got, "paramValues") || strings.Contains(got, "collected") {
+		t.Errorf("locals not renamed: %s", got)
+	}
+	// another receiver type: untouched
+	if got := run("otherFunction", "_ = 0"); !strings.Contains(got, "paramValues := getContainer()") || !strings.Contains(got, "collected := paramValues.result") {
+		t.Errorf("locals of another method renamed: %s", got)
+	}
+	// evil twins: the canonical name already denotes something else in the function
+	if got := run("syntaxAggregateFunction", "{ result := 1; _ = result }"); !strings.Contains(got, "collected := values.result") || !strings.Contains(got, "out = collected") {
+		t.Errorf("renamed onto a name in use: %s", got)
+	}
+	if got := run("syntaxAggregateFunction", "{ values := 1; _ = values }"); !strings.Contains(got, "paramValues := getContainer()") || !strings.Contains(got, "putContainer(paramValues)") {
+		t.Errorf("renamed onto a name in use: %s", got)
+	}
+}
